@@ -66,7 +66,7 @@ def catalogue():
           '  # real comment'),
         A('Q2', 'quote', META=m + "URL = 'sq # h = [y]'"),
         A('Q3', 'quote', ENV=e + 'Q3 = unquoted value # comment'),
-        A('Q4', 'quote', ENV=e + '''Q4 = "a, b", 'c # d', e  # list-like'''),
+        A('Q4', 'quote', ENV=e + '''Q4 = "a, b, 'c # d', e"  # list-like'''),
         # ---- multi-line strings
         A('M1', 'multiline', FOO=[
             f + 'pre-script = """', 'echo a', '', '      indented # hash',
@@ -351,13 +351,34 @@ def combos(cat, maxn, reverse_too):
         for c in itertools.combinations(idx, n):
             # at most one whole-file transform of each kind: all are distinct
             yield (c, False)
-            if reverse_too and 2 <= n <= 3:
+            if reverse_too and n == 2:
                 yield (c, True)
+
+
+_EP_CACHE: dict = {}
+
+
+def cache_entry_points():
+    """The installed-package scan for plugin entry points costs ~7 ms per
+    parse and dominates everything; memoise it (the same plugins still
+    run on every parse)."""
+    import cylc.flow.plugins as plugins
+    if getattr(plugins.iter_entry_points, '_vf_cached', False):
+        return
+    real = plugins.iter_entry_points
+
+    def cached(name):
+        if name not in _EP_CACHE:
+            _EP_CACHE[name] = list(real(name))
+        return iter(_EP_CACHE[name])
+    cached._vf_cached = True
+    plugins.iter_entry_points = cached
 
 
 def _work(job):
     import logging
     logging.getLogger('cylc').setLevel(logging.CRITICAL)
+    cache_entry_points()
     cases, scratch = job
     cat = catalogue()
     wdir = Path(scratch) / f'c36-{os.getpid()}'
@@ -468,7 +489,8 @@ def run(ctx: Ctx) -> Result:
         'the processed file is written next to the source under log/, and '
         'parsed with no template variables (templating is already applied)',
         'not covered: template variables from the command line / database, '
-        'pre_configure plugins, EmPy, a second #!jinja2 line, Jinja2 '
+        'third-party pre_configure plugins (the plugin entry-point scan is '
+        'memoised by the harness), EmPy, a second #!jinja2 line, Jinja2 '
         'include/import of other template files',
     ])
 
@@ -478,6 +500,7 @@ def replay(payload):
     import tempfile
     from ..core import scratch_root
     logging.getLogger('cylc').setLevel(logging.CRITICAL)
+    cache_entry_points()
     wdir = Path(tempfile.mkdtemp(dir=scratch_root()))
     st, info = evaluate(payload['files'], wdir)
     if st != 'violation':
